@@ -116,7 +116,13 @@ Modelled == <<
     \* round 2: results are foreign objects with their own equality protocol; a cache hit
     \* must hand them back without ever consulting it
     [m |-> "probe", scope |-> "all", eq |-> "alleq"],        \* == everything, != nothing
-    [m |-> "probe", scope |-> "all", eq |-> "elementwise"]   \* comparisons give a non-boolean
+    [m |-> "probe", scope |-> "all", eq |-> "elementwise"],  \* comparisons give a non-boolean
+    \* round 7: every handler returns a value that looks like nothing (None, 0, False, ());
+    \* it must be kept like any other result (observed through the handler runs per key)
+    [m |-> "nil", scope |-> "all", val |-> "none"],
+    [m |-> "nil", scope |-> "all", val |-> "zero"],
+    [m |-> "nil", scope |-> "all", val |-> "false"],
+    [m |-> "nil", scope |-> "all", val |-> "empty"]
 >>
 \* kinds that take no extra arguments at all
 NoArgKinds == {"subst"}
